@@ -123,6 +123,7 @@ type pathState struct {
 	known      map[*Term]*Term
 	simpMemo   map[*Term]*Term
 	pcSet      map[*Term]bool
+	reprLens   int
 
 	initAppsLoaded bool
 }
